@@ -35,7 +35,15 @@ import c09_gen
 import c09_oracle
 from common import cstr, clist, cbool, copt, cpair, cz, cn
 
-THEOREMS = []
+THEOREMS = [
+    'C09_normalize_float_normal_form', 'C09_normalize_float_classes',
+    'C09_normalize_float_exponent_padding_refuted', 'C09_normal_form_fixed',
+    'C09_parse_material_classes', 'C09_pot_fill_provenance',
+    'C09_provenance_head_is_leaf', 'C09_geomcomp_name',
+    'C09_geomcomp_one_line', 'C09_geomcomp_lines', 'C09_compositions_exact',
+    'C09_compositions_distinct', 'C09_geomcomp_name_has_composition',
+    'C09_material_leading_zero_refuted',
+]
 TRUSTED = [
     'hand-written model coq/C09/Model.v (tied by execution only); pot_fill '
     'and develop_lattice are modelled without geometry and transformations '
@@ -45,6 +53,13 @@ TRUSTED = [
     'float(): the model only decides WHETHER float() accepts a spelling '
     '(float_ok), tied on the same exhaustive domain; values are compared by '
     'the sweep oracle only',
+    'coq/C09/Spec.v: the spelling relation (sign, digits, fraction, padding '
+    'zeros, exponent marker E/e/D/d/none) and the reference reading of a FILL '
+    'hierarchy (leaves) are written from the MCNP manual, not proved against '
+    'anything',
+    'that the cell at the head of the provenance chain owns the POINTS of the '
+    'volume is geometry (C05/C06/C13); here it is only swept by the '
+    'independent oracle (mcnpref location vs t4eval membership)',
     'harness: generators, impl.T4File reader, t4eval/mcnpref oracles, PEG shim '
     'replacing TatSu',
 ]
@@ -54,9 +69,20 @@ ASSUMPTIONS = [
     'newline, int()/float() on underscores, inf/nan are not modelled)',
     'fillid of the cells handed to pot_fill is a plain universe number '
     '(lattices are developed before); importances are integers',
-    'C09_provenance_head_is_leaf: the cells listed by by_universe exist in the '
-    'dictionary and new_cell_key is not below any existing key (true of '
-    'construct_volume_t4: free_key = max key + 1)',
+    'C09_normalize_float_classes: the number has at least one mantissa digit '
+    'and, when an exponent follows, both spellings carry the same padding '
+    '(the code never removes zeros between a fraction and an exponent: '
+    'C09_normalize_float_exponent_padding_refuted)',
+    'C09_provenance_head_is_leaf / C09_pot_fill_provenance: the parsed cells '
+    'carry no provenance (idorigin empty) and new_cell_key is not below any '
+    'existing key (true of construct_volume_t4: free_key = max key + 1); the '
+    'statement is conditional on pot_fill returning (no RecursionError)',
+    'C09_compositions_exact / C09_geomcomp_name_has_composition: the stored '
+    'densities are fixed points of normalize_float (proved for well-formed '
+    'numbers, C09_normal_form_fixed; tied exhaustively for all strings of '
+    'length <= 6/7 over the small alphabet) and the material token is the '
+    'canonical decimal spelling of its number '
+    '(C09_material_leading_zero_refuted otherwise)',
 ]
 HEADER = ('From Coq Require Import List NArith ZArith Bool String Ascii.\n'
           'From Coq Require Uint63.\n'
